@@ -355,3 +355,21 @@ zz	4d
   | _ => False
   end.
 Proof. vm_compute. repeat split. Qed.
+
+(* ---- C12 at cell level: a node is an ErrorToken exactly when its cell is an ordinary cell that the importer of its spine's
+        header rejects, and then it carries the cell text and the number of its (non-blank) line *)
+Theorem error_iff_rejected bad d r id c : cell_rel bad d r id c ->
+  forall e l, n_tok (get_node d id) = Some (TError e l) <->
+    (e = c /\ l = r /\ startswith "**" c = false /\ mem_str c spine_operations = false /\ startswith "!" c = false /\
+     exists hid, n_header (get_node d id) = Some hid /\ import_cell bad (header_text d hid) c = RFail).
+Proof.
+  intros [t [Et R]] e l. rewrite Et. split.
+  - intros H. injection H as ->.
+    destruct (startswith "**" c); [destruct R as [[col Hc] _]; discriminate|].
+    destruct (mem_str c spine_operations); [discriminate|]. destruct (startswith "!" c); [discriminate|].
+    destruct R as [hid [Hh R]]. destruct (import_cell bad (header_text d hid) c) as [t'| |] eqn:Ei; [|injection R as -> ->|contradiction].
+    + exfalso. pose proof (import_cell_not_error _ _ _ _ Ei) as Hne. subst t'. discriminate.
+    + repeat split; try reflexivity. exists hid. split; assumption.
+  - intros [-> [-> [E1 [E2 [E3 [hid [Hh Ei]]]]]]]. rewrite E1, E2, E3 in R. destruct R as [hid' [Hh' R]].
+    rewrite Hh in Hh'. injection Hh' as <-. rewrite Ei in R. now rewrite R.
+Qed.
